@@ -4,6 +4,7 @@ use vcore::SubCheck;
 pub mod util;
 pub mod c03;
 pub mod c05;
+pub mod c08;
 pub mod c09;
 pub mod c11;
 pub mod c12;
@@ -14,6 +15,7 @@ pub fn main() -> i32 {
     let mut checks: Vec<Box<dyn SubCheck>> = vec![];
     checks.extend(c03::checks());
     checks.extend(c05::checks());
+    checks.extend(c08::checks());
     checks.extend(c09::checks());
     checks.extend(c11::checks());
     checks.extend(c12::checks());
